@@ -15,13 +15,14 @@ from vf.pyvc import extract
 from vf import repro_model as rm
 
 MOD = "debian._deb822_repro.parsing"
-WORDS = ["amd64", "i386", "any", "linux-any", "a", "b1", "x_y", "any"]
+WORDS = ["amd64", "i386", "any", "linux-any", "a", "b1", "x_y", "any", "#hash", "#"]
 
 
 def split_spec(field_text, kind):
     """values of a list field from its raw text (text after the colon, comment lines dropped)"""
     body = field_text.split(":", 1)[1]
-    lines = [l for l in body.split("\n") if not l.startswith("#")]
+    # the first line is the rest of the field line, never a comment line ("List:#x" has the value "#x")
+    lines = [l for i, l in enumerate(body.split("\n")) if i == 0 or not l.startswith("#")]
     flat = "\n".join(lines)
     if kind == "space":
         return flat.split()
